@@ -393,10 +393,11 @@ def strictly_compilable(lang, d: Domain, eff):
 
 
 # ---------------------------------------------------------------------------------------------------------------------
-def enc_tie(ctx, drv):
+def enc_tie(ctx, drv, dom):
     rng = ctx.rng
     from binascii import crc32 as bcrc
-    vals = []
+    vals = [v for lang in od.LANGS for e in dom[lang]["options"] for v in e["values"]]   # every documented value
+    ctx.extra["documented_values_compared"] = len(vals)
     # the doctest values, edge cases
     vals += ["", "Any", "123456789", "a", "\x00", "\x7f", "\x80", "߿", "ࠀ", "￿", "\U00010000", "\U0010ffff",
              True, False, 0, 1, -1, 123, 2 ** 31 - 1, 2 ** 31, 2 ** 32 - 1, 2 ** 32, 2 ** 63, -2 ** 63, 10 ** 30, 3.14, None, [1], {"a": 1}]
@@ -489,13 +490,13 @@ def build_cases(ctx, wb, dom):
         singles_rest = [s for _, b in bs[1:] for s in single_differences(d, b)]
         if ctx.quick:
             rng.shuffle(singles_rest)
-            singles_rest = singles_rest[:24]
+            singles_rest = singles_rest[:12]
             if lang == "cpp":
                 rng.shuffle(singles_main)
-                singles_main = singles_main[:60]
+                singles_main = singles_main[:40]
         for o1, o2, k in singles_main + singles_rest:
             cases.append(("single", lang, o1, o2))
-        nrand = 20 if ctx.quick else 150
+        nrand = 12 if ctx.quick else 150
         for _ in range(nrand):
             _, b = rng.choice(bs)
             o1 = random_set(d, rng, b, rng.choice([0, 0, 1, 2, 4]))
@@ -561,7 +562,7 @@ def run(ctx: common.Ctx):
     else:
         drv_table = drv
     if drv is not None:
-        enc_tie(ctx, drv)
+        enc_tie(ctx, drv, dom)
     table_tie(ctx, drv_table, dom)
 
     _mark(ctx, "enc-tie")
@@ -719,7 +720,8 @@ def run(ctx: common.Ctx):
                              "headers generated with identical (CLI-reachable) language options do not compile together", rp)
                 elif not accepted:
                     ctx.count("identical:other-errors-outside-guard")
-                    ctx.extra.setdefault("identical_sets_with_errors_outside_the_guard", []).append(
+                    lst = ctx.extra.setdefault("identical_sets_with_errors_outside_the_guard", [])
+                    (lst if len(lst) < 12 else []).append(
                         {"lang": lang, "non_default": {k: v for k, v in e1.items() if d.defaults.get(k) != v}, "compiler": cname,
                          "first_error": (r["other"] or ["?"])[0][:120]})
     # samples
